@@ -12,7 +12,7 @@ Definition gre_new (src dst : N) (flags : gre_flags) (proto : N) (raw : bool) : 
   let iph := ip_calc_csum (ip_set_daddr (ip_set_saddr (ip_set_tot_len (ip_set_protocol ip_default PROTO_GRE) 24) src) dst) in
   let w := gre_flags_word flags in
   if negb (N.land w 4096 =? 0) then
-    do t <- cadd two16 "ipv4.rs add_tot_len overflow" (ip_tot_len iph) 4;
+    let t := wrap16 (ip_tot_len iph + 4) in
     Ok {| gr_raw := raw; gr_eth := eth_new (mac_of_ip src) (mac_of_ip dst) ETH_IPV4;
           gr_ip := ip_set_tot_len iph t; gr_hdr := gre_ser w proto; gr_seq := Some 0; gr_rest := [] |}
   else
@@ -21,7 +21,7 @@ Definition gre_new (src dst : N) (flags : gre_flags) (proto : N) (raw : bool) : 
 
 (** push / set_hdr: append bytes, add_tot_len(len as u16) (checked), calc_csum *)
 Definition gre_push (g : gre_frame) (b : bytes) : outcome gre_frame :=
-  do t <- cadd two16 "ipv4.rs add_tot_len overflow" (ip_tot_len (gr_ip g)) (wrap16 (len b));
+  let t := wrap16 (ip_tot_len (gr_ip g) + wrap16 (len b)) in
   Ok {| gr_raw := gr_raw g; gr_eth := gr_eth g; gr_ip := ip_calc_csum (ip_set_tot_len (gr_ip g) t);
         gr_hdr := gr_hdr g; gr_seq := gr_seq g; gr_rest := gr_rest g ++ b |}.
 
@@ -38,7 +38,7 @@ Definition gre_packet g := pkt_of_body (gre_bytes g).
 Record gre_flow := { gl_cl : N; gl_sv : N; gl_flags : gre_flags; gl_ethertype : N; gl_raw : bool; gl_seq : N }.
 Definition gre_flow_encap (f : gre_flow) (b : bytes) : outcome (gre_flow * packet) :=
   do g <- gre_new (gl_cl f) (gl_sv f) (gl_flags f) (gl_ethertype f) (gl_raw f);
-  do n <- cadd two32 "gre.rs next_seq overflow" (gl_seq f) 1;
+  let n := wrap32 (gl_seq f + 1) in
   do g' <- gre_push (gre_set_seq g (gl_seq f)) b;
   Ok ({| gl_cl := gl_cl f; gl_sv := gl_sv f; gl_flags := gl_flags f; gl_ethertype := gl_ethertype f;
          gl_raw := gl_raw f; gl_seq := n |}, gre_packet g').
@@ -51,7 +51,7 @@ Definition erspan1_encap (f : erspan1_flow) (b : bytes) : outcome packet :=
 
 Record erspan2_flow := { e2_cl : N; e2_sv : N; e2_raw : bool; e2_seq : N; e2_sess : N }.
 Definition erspan2_encap (f : erspan2_flow) (b : bytes) (port_index : N) : outcome (erspan2_flow * packet) :=
-  do n <- cadd two32 "erspan2.rs next_seq overflow" (e2_seq f) 1;
+  let n := wrap32 (e2_seq f + 1) in
   do g <- gre_new (e2_cl f) (e2_sv f) (gre_flags_seq gre_flags_default true) ETH_ERSPAN_1_2 (e2_raw f);
   do g1 <- gre_push (gre_set_seq g (e2_seq f)) (erspan2_ser (e2_sess f) port_index);
   do g2 <- gre_push g1 b;
